@@ -12,26 +12,26 @@ def na(i, reason):
     P[i] = dict(claimed=False, reason=reason)
 
 TECH = {
- "C01": "static analysis: symbolic byte-count summaries of Encode paths vs Len() per guard valuation (SIZE), header/type/constant table extraction (TABLE)",
- "C02": "static analysis: SSA value-origin tracing for ownership (ORIGIN), decision-table comparison decoder-admits vs encoder-admits, extent confinement of reads after decodeHeader (TRACE)",
- "C03": "static path analysis of Decoder.Read / Encoder.Write / BaseConn.Receive / wsStream.Read: limit-before-buffering, error implies nil packet, shipped slice == encoded slice",
- "C04": "decision-table extraction from Tree.match/search over a symbolic (topic end, segment kind) valuation, compared with the MQTT 4.7 reference rows",
- "C05": "must-hold lockset analysis (LOCK), one-critical-section typestate per exported method, SSA alias-origin analysis of returned slices (ORIGIN)",
- "C06": "SSA allocation-site analysis for per-filter subscription objects, path analysis of fan-out (one enqueue per session, gate, retain cleared first), QoS cap decision table, shared-message write inventory",
- "C07": "static path analysis (TRACE): ack-after-enqueue ordering, who-may-send PUBACK/PUBCOMP inventory, per-QoS decision table of the publish handler, delete-before-PUBCOMP ordering",
- "C08": "static path analysis over the type-checked AST (TRACE engine): store-before-send, ack-deletes, resend order, session-present table, Setup clean/resume tables, writer inventory",
- "C09": "static path analysis of the client's publish/ack/teardown paths, who-may-complete inventory of futures, unchecked type-assertion justification, tomb Go/Wait typestate, error-origin rule for goroutine functions",
- "C10": "decision-table extraction from the client's inbound PUBLISH/PUBREL handlers over (QoS, callback mode, stored) valuations; no-ack-after-callback-error path rule",
- "C11": "writer inventory and decision table of the retained tree over (retain flag, payload empty), copy-before-clear origin rule, replay path rule, search table (shared with C04)",
- "C12": "writer inventories of Client.will / Client.state with path conditions, decision table of cleanup over (state, will), single-call-site and ordering rule for the reaper",
- "C13": "must-hold lockset analysis of the backend registry (LOCK), path analysis of Setup's close-wait-register sequence and of Terminate, CONNACK-after-Setup ordering",
- "C14": "type-assertion justification (ASSERT), error-origin and error-handling rules over every goroutine function, escape-case inventory of blocking channel operations, reachability of explicit panics, exhaustive packet switch",
- "C15": "SSA origin analysis of the resend slice (no map-order), goroutine/receiver multiplicity inventory, lockset at every session-queue send",
- "C16": "token site inventory vs the token table, per-QoS path rule for the dequeuer iteration, take-before-send ordering, capacity == fill == configured window",
- "C17": "static path analysis of client.Service: book-before-dispatch ordering, future attach-or-cancel on every path, fresh tomb per Start, protect-before-run; inherits the client's Go/Wait typestate and error-origin rules",
- "C18": "three-point abstract interpretation of NextID (never zero), single-increment path rule, lockset analysis, GetID case table vs types with an ID field, direction routing table",
- "C19": "must-hold lockset analysis of BaseConn (send/receive mutex discipline), error-closes-carrier and flush-before-close path rules, WebSocket Close write-freedom",
- "C20": "static path analysis of the broker's protocol gate: checked first-packet assertion, auth-failure table, exhaustive packet switch table, id/return-code correlation origins, at most one CONNACK per path",
+ "C01": "static analysis: symbolic byte-count summaries of Encode paths vs Len() per guard valuation (SIZE), header/type/constant table extraction (TABLE), relational interval analysis with Fourier-Motzkin refutation for the varint / detection-window / length-prefix limits (LIN), field-use and field-mix path rules, header-bound rule",
+ "C02": "static analysis: relational bounds analysis of every index/slice expression and loop of the decode side (LIN: BOUNDS, CONSUMED, TERMINATES), SSA value-origin tracing for ownership (ORIGIN), decision-table comparison decoder-admits vs encoder-admits (ADMIT), extent confinement of reads after decodeHeader, pooled-buffer lifetime (POOL)",
+ "C03": "static path analysis of Decoder.Read / Encoder.Write / BaseConn.Receive / wsStream.Read: limit-before-buffering, error implies nil packet, whole-packet read before Decode, shipped slice == encoded slice of Len() bytes (with the SIZE agreement of C01), pooled-buffer lifetime, no per-message limit on the WebSocket carrier, detection window (LIN)",
+ "C04": "decision-table extraction from Tree.match/search over a symbolic (topic end, segment kind) valuation, compared with the MQTT 4.7 reference rows; path rules for the segment helpers and for the descent of all six trie walkers; prune rule",
+ "C05": "must-hold lockset analysis over every mutable tree field (LOCK), one-critical-section typestate per exported method, SSA alias-origin analysis of returned slices incl. closure parameters (ORIGIN), prune / add-set path rules, walker tables shared with C04",
+ "C06": "SSA allocation-site analysis for per-filter subscription objects, path analysis of fan-out (one enqueue per session, gate, retain cleared first), QoS cap decision table, shared-message write inventory, tree tables shared with C04/C05, window-slot return rule",
+ "C07": "static path analysis (TRACE): ack-after-enqueue ordering, who-may-send PUBACK/PUBCOMP inventory, per-QoS decision table of the publish handler, delete-before-PUBCOMP ordering and release-inside-the-ack-closure rule, request-token inventory, resume-leaves-the-session-alone table",
+ "C08": "static path analysis over the type-checked AST (TRACE engine): store-before-send, ack-deletes, resend completeness and order, session-present table, Setup clean/resume tables, writer inventory, QoS-cap copy rule, packet-store map/listing rules shared with C18",
+ "C09": "static path analysis of the client's publish/ack/teardown paths, who-may-complete inventory of futures, unchecked type-assertion justification, tomb Go/Wait typestate, no-wait-under-the-client-mutex lockset rule, error-origin rule for goroutine functions, id-counter rules shared with C18",
+ "C10": "decision-table extraction from the client's inbound PUBLISH/PUBREL handlers over (QoS, callback mode, stored) valuations; no-ack-after-callback-error path rule; close-closes-the-carrier rule shared with C19; detection window (LIN)",
+ "C11": "writer inventory and decision table of the retained tree over (retain flag, payload empty), copy-before-clear origin rule, replay path rule, search table and prune rule (shared with C04/C05), will-stored-before-CONNACK rule",
+ "C12": "writer inventories of Client.will / Client.state with path conditions, decision table of cleanup over (state, will), single-call-site and ordering rule for the reaper, will-before-CONNACK ordering, receive-error-closes-the-carrier rule shared with C19",
+ "C13": "must-hold lockset analysis of the backend registry (LOCK), path analysis of Setup's close-wait-register sequence and of Terminate (guarded unregister), session-recorded-right-after-Setup ordering, resume-leaves-the-session-alone table, will writer rule",
+ "C14": "type-assertion justification (ASSERT), relational bounds analysis of the decode side (LIN), error-origin and error-handling rules over every goroutine function, escape-case inventory of blocking channel operations, reachability of explicit panics, exhaustive packet switch, ack-queue capacity rule, shutdown-coverage rule, collector guards",
+ "C15": "SSA origin analysis of the resend slice (no map order), monotone sort-key / order-preserving key-list rule for store listings, goroutine/receiver multiplicity inventory, lockset at every session-queue send, FIFO rule for the service queue",
+ "C16": "token site inventory vs the token table, per-QoS path rule for the dequeuer iteration, take-before-send ordering, capacity == fill == configured window (make() followed through helpers), one non-blocking slot return per completed handshake, settings-applied-on-every-Setup-path table",
+ "C17": "static path analysis of client.Service: book-before-dispatch ordering, future attach-or-cancel on every path, fresh tomb per Start, protect-before-run, resubscribe-all rule; inherits the client's Go/Wait typestate, error-origin, resend and prune rules",
+ "C18": "three-point abstract interpretation of NextID (never zero), single-increment path rule, lockset analysis, GetID case table vs types with an ID field, packet-store map/listing rules with SSA origins, direction routing table, one-draw delegate rule",
+ "C19": "must-hold lockset analysis of BaseConn (send/receive mutex discipline), error-closes-carrier and flush-before-close path rules, WebSocket Close write-freedom and no-message-limit rule, shipped-slice and pooled-buffer rules shared with C03",
+ "C20": "static path analysis of the broker's protocol gate: checked first-packet assertion, auth-failure table and credentials-lookup table, exhaustive packet switch table, id/return-code correlation origins, at most one CONNACK per path, request/ack token inventories",
 }
 
 def from_evidence(i):
